@@ -141,8 +141,18 @@ def nontrivial_authz(op, obs):
                            "request_uri_not_supported", "error/500"))
 
 
+def nontrivial_jwtat(op, obs):
+    f = op.split("\t")
+    if f[1] == "gen":
+        return obs.startswith("gen ok")
+    if f[1] == "sig":
+        return "nseg=3" in f
+    # accepted, or decided by the token under a usable key (not by the key-getter type switch)
+    return obs.startswith("ok") or obs not in ("err error/500", "err plain")
+
+
 PURE_NONTRIVIAL = {"scope": nontrivial_scope, "audience": nontrivial_audience, "hmac": nontrivial_hmac, "redirect": nontrivial_redirect, "render": nontrivial_render,
-                   "clientauth": nontrivial_clientauth, "expiry": nontrivial_expiry, "assertion": nontrivial_assertion, "idtoken": nontrivial_idtoken, "authz": nontrivial_authz}
+                   "clientauth": nontrivial_clientauth, "expiry": nontrivial_expiry, "assertion": nontrivial_assertion, "idtoken": nontrivial_idtoken, "authz": nontrivial_authz, "jwtat": nontrivial_jwtat}
 
 HIST_RULE = ("D1 history driver: seeded histories (2-5 clients, code / hybrid / refresh / revoke / introspect / time-advance / registration-change operations, ~70% valid continuations and ~30% adversarial moves: replay of any generation, foreign or unauthenticated client, changed redirect_uri, verifier variants, mutated or foreign tokens, smuggled parameters, boundary time jumps) executed in-process against the real library over the reference store inside a synctest bubble and against the Lean model; compared per operation: outcome (+RFC error/status), storage-call log, full store dump; a history is non-trivial when an accepted credential exchange is followed by a later operation on one of its tokens; distinct = distinct op sequences")
 
@@ -178,13 +188,14 @@ PROPS = {
         partial=["issuance rule is proved for the code flow; password and device flows are not yet in the model"],
     ),
     "C06": dict(
-        modules=["Fosite.Props.C06"],
-        drivers=[dict(name="hmac", kind="pure")],
-        rule="D4 pure driver: tokens minted by the real HMACStrategy.Generate (deterministic crypto/rand stream; global secret lengths 0/1/16/31/32/33/64; entropy 0/16/32/64 [thorough: -1/31/33/100]; hasher default SHA-512/256 and sha256 [thorough: sha512, explicit sha512_256]; plain, ory_at_/ory_rt_/ory_ac_ prefixed and device strategies) and ~140 mutants of each (bit flips in either decoded part, character substitutions incl. non-canonical last characters, truncation/extension, swapping parts between two tokens and with a token minted under a foreign secret, padding / std / hex re-encodings, garbage, empty parts, multiple dots, whitespace/CR/LF/NUL insertion, case changes, every prefix variant) validated by the real Validate / Validate{AccessToken,RefreshToken,AuthorizeCode,DeviceCode} under 6 kinds of global secret x rotated lists = every ordered subset of {A32,B64,short16,minting key} (sampled in quick, exhaustive for two base tokens in thorough); Signature of every mutant; thorough adds every single-bit flip of both parts and 1e6 real mints checked for distinctness; compared: one error class per op, the exact minted token for generate, the exact signature string; non-trivial = decided at the MAC comparison or the base64 layer, or a short key reached behind a usable one, or a token minted, or a non-empty signature extracted; distinct = distinct op lines",
+        modules=["Fosite.Props.C06", "Fosite.Props.C06b"],
+        drivers=[dict(name="hmac", kind="pure"), dict(name="jwtat", kind="pure", spec_sees_obs=True)],
+        rule="D4 pure driver: tokens minted by the real HMACStrategy.Generate (deterministic crypto/rand stream; global secret lengths 0/1/16/31/32/33/64; entropy 0/16/32/64 [thorough: -1/31/33/100]; hasher default SHA-512/256 and sha256 [thorough: sha512, explicit sha512_256]; plain, ory_at_/ory_rt_/ory_ac_ prefixed and device strategies) and ~140 mutants of each (bit flips in either decoded part, character substitutions incl. non-canonical last characters, truncation/extension, swapping parts between two tokens and with a token minted under a foreign secret, padding / std / hex re-encodings, garbage, empty parts, multiple dots, whitespace/CR/LF/NUL insertion, case changes, every prefix variant) validated by the real Validate / Validate{AccessToken,RefreshToken,AuthorizeCode,DeviceCode} under 6 kinds of global secret x rotated lists = every ordered subset of {A32,B64,short16,minting key} (sampled in quick, exhaustive for two base tokens in thorough); Signature of every mutant; thorough adds every single-bit flip of both parts and 1e6 real mints checked for distinctness; compared: one error class per op, the exact minted token for generate, the exact signature string; non-trivial = decided at the MAC comparison or the base64 layer, or a short key reached behind a usable one, or a token minted, or a non-empty signature extracted; distinct = distinct op lines; jwtat: keys generated once per process (RSA-2048 x2, P-256 x2, P-384); base tokens minted by the real DefaultJWTStrategy.GenerateAccessToken with 12 claim variants; about 340 single mutations of each (alg set to each asymmetric and 27 odd spellings incl. HS*, none/None/NONE, wrong case, empty, absent, non-string, without re-signing; re-signed by the right / other-same-type / other-type key; a real signature under a none/HS/odd header; none with empty, non-empty and missing signature part; HS256/384/512 keyed with PKIX-DER / PKCS1-DER / PEM of the configured and foreign public keys; signature bit flips, truncation, extension, zeroing, ECDSA (r,n-s), parts swapped between tokens; raw headers (non-object, duplicate alg, crit variants, b64=false, embedded jwk) and raw payloads; 1/2/4/5 parts; whitespace, padding, non-canonical base64; JWS JSON serializations) plus random pairs; under every usable and sampled unusable key-getter result (*rsa/*ecdsa.PrivateKey, jose.JSONWebKey by value and pointer with matching / mismatching / symmetric Algorithm and Use, public keys, []byte, nil, opaque signers). Operations: ValidateAccessToken, DefaultSigner.Validate, IntrospectToken through compose.Compose + OAuth2StatelessJWTIntrospectionFactory, AccessTokenSignature, GenerateAccessToken + round trip. Compared: RFC error name/status | ok + token use, subject, scopes, unsigned header members",
         assumptions=["crypto enters as a parameter: the dec/enc/mac facts on every op line are computed with Go's encoding/base64 and crypto/hmac, independently of fosite, and the model decides from them",
                      "theorems naming tampering use explicit hypotheses Lawful (base64 round trip), DotFree, MacCollisionFree, Unforgeable; shown jointly satisfiable by examples; never axioms",
                      "'part' of a token = its decoded bytes; expiry checks before Enigma.Validate belong to C07"],
-        partial=["JWT access-token half (alg/key decision) is not modelled yet; lookup-then-validate at the endpoints is covered by the history model (C09 tampered_token_never_active, C02/C05 exact-copy facts) rather than here",
+        partial=["jwtat: go-jose parsing and JWS verification enter as facts recomputed and cross-checked by the executor; VerifySound (a verifying signature implies the private key signed exactly this header and payload) is an explicit hypothesis of jwt_altered_payload_or_header_rejected; the stateful CoreValidator + JWT strategy path (store lookup by AccessTokenSignature) is not in the history model (histories run the HMAC strategy)",
+                 "observed, not demanded by C06: go-jose also accepts the JWS JSON serialization of a valid token (with unprotected header members merged into the unsigned part of the header), ID tokens of the same key validate as access tokens, JWK Algorithm/Use restrict minting only",
                  "freshness of crypto/rand is the rand_fresh assumption; mint ops are supporting evidence only"],
     ),
     "C08": dict(
